@@ -48,7 +48,7 @@ def run(patch, props, keep=False, tier="quick"):
         shutil.rmtree(scratch, ignore_errors=True)
         rt = hashlib.sha256(os.path.abspath(scratch).encode()).hexdigest()[:8]
         tdir = os.path.join(VERIF, ".cache", "target")
-        for d in os.listdir(tdir):
+        for d in (os.listdir(tdir) if os.path.isdir(tdir) else []):
             if d.endswith("-" + rt):
                 shutil.rmtree(os.path.join(tdir, d), ignore_errors=True)
     return out
